@@ -225,7 +225,7 @@ def textbook_definitions(ctx):
     from .c18_refs import REFS
     what = {
         'support_index': 'indices with weight > tol', 'support': 'samples with weight > tol',
-        'expectation': 'mean of f(x) weighted by w over |w| > tol', 'expected_variance': '_expected_moment(order=2)',
+        'expectation': 'mean of f(x) weighted by w over |w| > tol', 'expected_variance': '_expected_moment(order=2)', '_expected_moment': 'moment of f(x) weighted by w over |w| > tol',
         'ess_maximum': 'maximum over the support', 'ess_minimum': 'minimum over the support', 'ess_ptp': 'ptp over the support',
         'maximum': 'max f(x)', 'minimum': 'min f(x)', 'ptp': 'max f(x) - min f(x)',
         'median': 'weighted median', 'mad': 'median of |s - median|', 'impose_median': 's + (m - median)',
